@@ -546,7 +546,7 @@ fn compare(s: &str, r: &sas_lexer::LexResult) -> Vec<String> {
 
 pub fn run(cfg: &Config) -> PropRun {
     let ex = Explorer::new(cfg.threads, cfg.cap_s, if cfg.tier == Tier::Quick { 28 } else { 33 });
-    let mut sp = spaces::sigma_spaces(&["S5full", "dl", "aliasopen"], cfg.tier);
+    let mut sp = spaces::sigma_spaces(&["S5full", "dl", "aliasopen", "cmtbody"], cfg.tier);
     // every pair and triple of symbol characters (operators are where longest-match matters)
     let syms: Vec<&str> = vec![
         "*", "(", ")", "{", "}", "[", "]", "!", "¦", "|", "¬", "^", "~", "∘", "+", "-", "<", ">", ".", ",", ":", "=",
@@ -616,6 +616,8 @@ pub fn run(cfg: &Config) -> PropRun {
             stmts.push(format!("'{}'{sfx}", body.replace('"', "'")));
         }
     }
+    // hex string bodies with commas, blanks and invalid digits at every position
+    stmts.extend(crate::props::hex_bodies());
     // fold-alike spellings of every keyword, suffix and in-stream data keyword (macro-free ones)
     for (host, w) in spaces::fold_alike_words() {
         let t = host.replacen("{}", &w, 1);
